@@ -362,6 +362,7 @@ func c16run(c *Ctx) {
 
 	// --- constructors with every subset and order of options
 	c16responses(c)
+	c16optionSlices(c)
 	c16controls(c)
 	c16mux(c)
 }
@@ -560,6 +561,67 @@ func c16responses(c *Ctx) {
 				}
 				c.Outcome(ctor + ":ok")
 			})
+		}
+	}
+}
+
+// c16optionSlices: the constructors are handed prefixes of one options slice with spare capacity (the natural
+// way to walk through "any subset of their options"); afterwards the slice must still hold the options the
+// caller put there - checked by what a constructor makes of them.
+func c16optionSlices(c *Ctx) {
+	type ctorT struct {
+		name string
+		call func(req *gldap.Request, opts ...gldap.Option) gldap.Response
+	}
+	ctors := []ctorT{
+		{"NewResponse", func(r *gldap.Request, o ...gldap.Option) gldap.Response { return r.NewResponse(o...) }},
+		{"NewBindResponse", func(r *gldap.Request, o ...gldap.Option) gldap.Response { return r.NewBindResponse(o...) }},
+		{"NewSearchDoneResponse", func(r *gldap.Request, o ...gldap.Option) gldap.Response { return r.NewSearchDoneResponse(o...) }},
+		{"NewSearchResponseEntry", func(r *gldap.Request, o ...gldap.Option) gldap.Response {
+			return r.NewSearchResponseEntry("cn=e", o...)
+		}},
+		{"NewExtendedResponse", func(r *gldap.Request, o ...gldap.Option) gldap.Response { return r.NewExtendedResponse(o...) }},
+		{"NewModifyResponse", func(r *gldap.Request, o ...gldap.Option) gldap.Response { return r.NewModifyResponse(o...) }},
+	}
+	req := mustDecode("search")
+	probe := func(opts []gldap.Option) string {
+		resp := req.NewResponse(opts...)
+		r, err := codec.ParseResponse(gldap.VPacketBytes(resp))
+		if err != nil {
+			return "unparsable: " + err.Error()
+		}
+		return fmt.Sprintf("tag=%d code=%d matched=%q diag=%q", r.Tag, r.Code, r.Matched, r.Diag)
+	}
+	mk := func() []gldap.Option {
+		return []gldap.Option{gldap.WithResponseCode(gldap.ResultSuccess), gldap.WithDiagnosticMessage("done"), gldap.WithMatchedDN("cn=m")}
+	}
+	want := probe(mk())
+	for _, ct := range ctors {
+		for _, spare := range []int{0, 5} {
+			if !c.Mine() {
+				continue
+			}
+			c.Count("inputs", 1)
+			c.Count("Response.optionSlices", 1)
+			all := make([]gldap.Option, 0, 3+spare)
+			all = append(all, mk()...)
+			rep := c16rep{Fn: ct.name, Note: fmt.Sprintf("prefixes of one options slice (len 3, cap %d)", cap(all))}
+			k := try(func() {
+				for n := 0; n <= len(all); n++ {
+					c.Count("calls", 1)
+					_ = ct.call(req, all[:n]...)
+				}
+			})
+			if k != "" {
+				c.Report(k, ct.name+" panicked: "+rep.Note, rep)
+				continue
+			}
+			if got := probe(all); got != want {
+				c.Outcome(ct.name + ":clobbers-options")
+				c.Report(ct.name+" writes into the options slice of its caller", fmt.Sprintf("%s: NewResponse(opts...) afterwards gives %s, before %s", rep.Note, got, want), rep)
+				continue
+			}
+			c.Outcome(ct.name + ":options-slice-intact")
 		}
 	}
 }
